@@ -195,11 +195,16 @@ def run(ctx):
                 ctx.sample(json.loads(line))
     # ---- binding self-test: move a writer's critical section into another writer's
     if files:
-        evs = [json.loads(x) for x in open(files[-1][1])]
+        # in a file that starts at a quiescent point (the data cells are known from there on): the second writer's read is made stale
+        src = [f for f in files if json.loads(open(f[1]).readline()).get("e") == "Epoch"] or files
+        evs = [json.loads(x) for x in open(src[0][1])]
+        nw = 0
         for i, e in enumerate(evs):
             if e["e"] == "cs" and e["wr"] >= 0:
-                e["rd"] += 1
-                break
+                nw += 1
+                if nw == 2:
+                    e["rd"] += 1
+                    break
         p = traces.write(evs[: i + 30], ctx.path("selftest.ndjson"))
         ok, matched, r = tlc.validate_trace("sync/LockLin.tla", p, cfg="LockLin_rw.cfg")
         if ok:
